@@ -12,6 +12,7 @@ UNITS = {
         ("includes-mixed", "#include \"b.h\"\n#include <b>\n#include <a.h>\n#include \"A.h\"\n#include \"a.hpp\"\n#include \"sub/a.h\"\n#include <vector>\n"
                            "#include \"a\"\n#include \"a-bc.h\"\n#include <B.h>\nint z;\n"),
         ("includes-groups", "#include <b.h>\n#include \"a.h\"\n\n#include <a.h>\n#include <b.h>\n\n\n\n\n\n#include \"z.h\"\n#include \"y.h\"\nint z;\n"),
+        ("c-sql", "void sq(void)\n{\n    EXEC SQL BEGIN DECLARE SECTION;\n    int h;\n    EXEC SQL END DECLARE SECTION;\n    EXEC SQL SELECT a\n             INTO :h\n             FROM t;\n    h++;\n}\n"),
         ("intspell2", "unsigned int a1;\nint unsigned a2;\nlong int a3;\nint long a4;\nshort int a5;\nint short a6;\nsigned int a7;\nint signed a8;\n"
                       "unsigned a9;\nlong b1;\nshort b2;\nsigned b3;\nunsigned long int b4;\nlong unsigned b5;\nint long unsigned int b6;\n"
                       "static unsigned const b7 = 1;\nvoid fi(unsigned, long x, short *p);\n"),
@@ -19,10 +20,19 @@ UNITS = {
                         "    default:\n        break;\n    }\n    return v;\n}\n"),
     ],
     "CPP": [
+        # constructs behind options no other unit makes uncrustify consult: nested / anonymous namespaces, class template
+        # declarations and specialisations, variable templates, typedef runs, multi-line conditions and for headers, new[] {},
+        # directives inside extern "C" / switch / function bodies, #pragma region, doxygen and multi-line comments
+        ("cov-cpp", "namespace a { namespace b { int x; } }\nnamespace { int y; }\ntemplate<class T> class TC;\ntemplate<class T> class TD { };\ntemplate<> class TD<int>;\n"
+                    "template<class T> T tv = T(1);\ntypedef struct { int a; } ts1;\ntypedef int ti1;\ntypedef int ti2;\n\ntypedef long tl;\nint cf(int a, int b)\n{\n"
+                    "    if (a &&\n        b) {\n        a++;\n    }\n    for (a = 0;\n         a < b;\n         a++) {\n    }\n    int *p = new int[] { 1, 2 };\n    return a;\n}\n"
+                    "extern \"C\" {\n#if X\nint ec;\n#endif\n}\n#pragma region R\nint rg;\n#pragma endregion\nint sw(int v)\n{\n    switch (v) {\n#if A\n    case 1:\n        break;\n#endif\n"
+                    "    default:\n        break;\n    }\n#if B\n    return 1;\n#endif\n}\n/** @param a the a */\nint dx(int a);\n/* one\n * two */\n// one\n// two\nint after;\n"),
         ("cpp-throw", "int th(int a)\n{\n    if (a)\n        throw (a);\n    if (!a)\n        throw a + 1;\n    return (a);\n}\n"),
         ("cpp-long-blocks", "namespace nn {\nclass CC {\npublic:\n    int a;\n    int b;\n    int c;\n};\nint lf2(int v)\n{\n    v++;\n    v--;\n    return v;\n}\n}\n"),
     ],
     "JAVA": [
+        ("java-annot", "@A @B class X {\n    @Override\n    public void f() {}\n    @C(1) @D int g;\n    @E\n    @F\n    void h() {}\n}\n"),
         ("java-imports", "package p;\nimport java.util.Map;\nimport java.util.List;\nimport java.io.File;\nimport java.util.ArrayList;\nimport static java.lang.Math.max;\n"
                          "import java.util.list;\n\nclass J {\n    int f(int a, int b) {\n        if (a > b) return (a);\n        else { return b; }\n    }\n"
                          "    void g(int n) {\n        for (int i = 0; i < n; i++) n--;\n        while (n > 0) { n--; }\n        do n++; while (n < 3);\n"
@@ -44,6 +54,8 @@ UNITS = {
                         "    void g(int n) {\n        foreach (var i in l) n++;\n        while (n > 0) { n--; }\n    }\n}\n"),
     ],
     "OC": [
+        ("oc-blocks", "@implementation B\n- (void)go\n{\n    [obj doIt:^(int a) {\n        x = a;\n    } with:^{\n        y = 1;\n    }];\n    [obj method:a other:b third:c];\n"
+                      "    [obj longMethodNameHere:argumentOne\n              other:argumentTwo];\n    dispatch_async(q, ^{\n        z = 2;\n    });\n}\n@end\n"),
         ("oc-props", "#import \"Zeta.h\"\n#import <Foundation/Foundation.h>\n#import \"Alpha.h\"\n@interface P : NSObject\n"
                      "@property (nonatomic, copy, readonly, nullable, getter=isX, class) NSString *a;\n@property (strong, atomic, readwrite, setter=setQ:, nonnull) id q;\n"
                      "@property (assign) int n;\n@end\n@implementation P\n- (int)f:(int)a b:(int)b {\n    if (a > b) return (a);\n    else { return b; }\n}\n@end\n"),
